@@ -220,15 +220,28 @@ def judge_lang_batch(job):
             res["cases"].append({"name": name, "ok": not sigs, "features": feats, "nout": len(ref), "signatures": sigs,
                                  "src": text if sigs else None, "detail": f"undeclared writes to {vm.get('undeclared')}" if sigs else None})
             continue
-        # attribution: does the case pass completely with all compensations on? then minimise the set
-        allon = run_vm(rows, lang, switches=tuple(SWITCHES))
-        if allon["status"] == "ok" and allon["outputs"] == ref:
-            need = list(SWITCHES)
-            for sw in list(SWITCHES):
-                trial = [x for x in need if x != sw]
-                t = run_vm(rows, lang, switches=tuple(trial))
+        # attribution: the smallest set of compensations (each emulating one repaired lowering) with which the case
+        # passes completely; searched by increasing size so that one misbehaving compensation cannot mask the others
+        import itertools
+        need = None
+        for size in (1, 2, 3):
+            for combo in itertools.combinations(SWITCHES, size):
+                t = run_vm(rows, lang, switches=combo)
                 if t["status"] == "ok" and t["outputs"] == ref:
-                    need = trial
+                    need = list(combo)
+                    break
+            if need:
+                break
+        if need is None:
+            allon = run_vm(rows, lang, switches=tuple(SWITCHES))
+            if allon["status"] == "ok" and allon["outputs"] == ref:
+                need = list(SWITCHES)
+                for sw in list(SWITCHES):
+                    trial = [x for x in need if x != sw]
+                    t = run_vm(rows, lang, switches=tuple(trial))
+                    if t["status"] == "ok" and t["outputs"] == ref:
+                        need = trial
+        if need is not None:
             sigs = [f"{lang}:{sw}" for sw in need]
             detail = f"passes only with compensation(s) {need}; plain execution: {vm['status']} {vm.get('error', '')} outputs {vm['outputs'][:8]} expected {ref[:8]}"
         else:
